@@ -23,6 +23,7 @@ SUP = 'emd/_cycles_support.py'
 FUNCTIONS = ['emd._cycles_support.' + f for f in (
     'map_cycle_to_samples', 'map_sample_to_cycle', 'map_subset_to_cycle', 'map_cycle_to_subset', 'map_subset_to_sample',
     'map_sample_to_subset', 'map_chain_to_subset', 'map_subset_to_chain', 'map_cycle_to_chain', 'map_sample_to_chain',
+    'map_chain_to_cycle', 'map_chain_to_samples',
     'project_cycles_to_samples', 'project_subset_to_cycles', 'project_chain_to_subset', 'project_subset_to_samples', 'project_chain_to_cycles', 'project_chain_to_samples')] + ['emd.cycles.get_subset_vector', 'emd.cycles.get_chain_vector']
 ASSUMPTIONS = [
     'floats are mathematical reals with a separate NaN flag; numpy ints unbounded',
@@ -30,7 +31,9 @@ ASSUMPTIONS = [
     'well-formedness of subset vectors is stated in bijection form (POS); that get_subset_vector outputs satisfy it is an induction the solver does not do: checked by the bounded stand-in only',
     'callees without loops are rebuilt from the real source in the same namespace and verified as part of their caller (inlined); the composite projections (project_chain_to_cycles, project_chain_to_samples, project_subset_to_samples) and map_subset_to_sample call their callees through contract stubs whose pre-conditions become obligations at the call and whose post-conditions are the ones discharged in the callee\'s own unit',
 ]
-NOT_COVERED = ['map_chain_to_samples: np.hstack over a symbolic-length comprehension of variable-length pieces - bounded stand-in only',
+ASSUMPTIONS.append('map_chain_to_samples: np.hstack of a symbolic number of variable-length pieces by an assumed contract (pieces laid end to end: offsets, piece-of-entry function); '
+                   'the result is proved to hold exactly the samples of the chain (sound and complete); that no sample is listed twice and the order are checked by the bounded stand-in')
+NOT_COVERED = ['map_chain_to_samples: order and multiplicity of the listed samples - bounded stand-in only (membership is proved)',
                'augmented-cycle maps (outside the property)']
 
 N = z3.Int('N')        # samples
@@ -227,6 +230,53 @@ def units(tier):
                                              z3.And(0 <= PPc(lift(k), SVf(cy)), PPc(lift(k), SVf(cy)) < n, r.elem(PPc(lift(k), SVf(cy))) == cy)), 'post')
     unit('map_chain_to_cycle', mk, post, inline=['map_chain_to_subset'])
     U[-1].ns = dict(U[-1].ns or {}, map_subset_to_cycle=subset_to_cycle_stub)
+
+    # -- map_chain_to_samples: the samples of chain k = the samples of the cycles POS(j) of the subset cycles j with chain_vect[j] == k,
+    #    piece after piece (np.hstack of variable-length pieces: assumed contract); map_subset_to_sample by the contract of its own unit
+    def mk(c):
+        c.assume(z3.And(NS >= 1, NCH >= 1))
+        ch, CH = _ch(c)
+        sv, SV = _sv(c)
+        cv, CV = _cv(c)
+        s = z3.Int('s')
+        c.assume(z3.ForAll([s], CV(s) < NC, patterns=[CV(s)]))
+        npshim.register_param_where(c, CH, NS, 'chv')
+        npshim.register_param_where(c, CV, N, 'cyv')
+        c.ghost['CV'] = CV
+        return (ch, sv, cv, _idx(c, 'k', NCH)), {}
+
+    def subset_to_sample_stub(subset_vect, cycle_vect, ii):
+        """contract of map_subset_to_sample (its own unit above: post:sound / increasing / complete = the strictly increasing list of exactly
+        the samples of cycle POS(ii)), i.e. np.where(cycle_vect == POS(ii))[0]: requires 0 <= ii < number of subset cycles"""
+        c = core.C()
+        if not core.Ctx.spec:
+            c.oblige('map_subset_to_sample:requires-existing-subset-cycle', z3.And(0 <= lift(ii), lift(ii) < NS), 'pre')
+        KKv, WWv, PPv = c.ghost['param_where'][-1][2:5]
+        cyc = POS(lift(ii))
+        r = SArr((KKv(cyc),), lambda q: WWv(cyc, q), 'i', incr=True)
+        r.nonneg = True
+        return r
+
+    def post(c, a, kw, r):
+        ch, sv, cv, k = a
+        KKc, WWc, PPc = c.ghost['param_where'][-2][2:5]
+        KKv, WWv, PPv = c.ghost['param_where'][-1][2:5]
+        CVf, SVf, CHf = cv.elem, sv.elem, ch.elem
+        p, s = z3.Ints('pp ps')
+        L = r.shape_e[0]
+        inchain = lambda smp: z3.And(CVf(smp) >= 0, SVf(CVf(smp)) >= 0, CHf(SVf(CVf(smp))) == lift(k))
+        c.oblige('post:sound', z3.Implies(z3.And(0 <= p, p < L), z3.And(0 <= r.elem(p), r.elem(p) < N, inchain(r.elem(p)))), 'post')
+        hs = getattr(r, 'hstack_of', None)
+        if hs is None:
+            c.oblige('post:complete', z3.BoolVal(False), 'post', note='result is not the concatenation the contract expects')
+            return
+        _, OFF, PJ = hs
+        # complete: a sample of a cycle whose subset cycle lies in chain k is listed (witness: rank of the subset cycle in the chain, rank of the sample in its cycle)
+        jw = PPc(lift(k), SVf(CVf(s)))
+        qw = PPv(CVf(s), s)
+        c.oblige('post:complete', z3.Implies(z3.And(0 <= s, s < N, inchain(s)), z3.And(0 <= OFF(jw) + qw, OFF(jw) + qw < L, r.elem(OFF(jw) + qw) == s)), 'post')
+    unit('map_chain_to_samples', mk, post, inline=['map_chain_to_subset'])
+    U[-1].ns = dict(U[-1].ns or {}, map_subset_to_sample=subset_to_sample_stub)
 
     def mk(c):
         c.assume(z3.And(NS >= 1, NCH >= 1))
